@@ -91,6 +91,27 @@ def check_whitespace_normalised(ctx: Ctx) -> None:
                    "text returned by a base wrapper must have had its whitespace runs collapsed (re.sub(r'\\s+', ' ') or split/join): "
                    "otherwise runs of spaces in the source survive on this path and the output depends on the input's layout", where(f, r))
         ctx.require("R-LAYOUT-Y2", f"returns of {f.name}", n, 1)
+    # Y2b: the collapsing steps of the wrapping core are controlled by `replace_whitespace` alone - an extra conjunct
+    # ("only if the text has a newline", ...) re-introduces a dependence on the source layout
+    from .config import implied_by
+
+    wflow = prog.flow(wl)
+    n_norm = 0
+    for node in wflow.cfg.nodes:
+        if node.kind == "stmt" and isinstance(node.ast, ast.Assign) and isinstance(node.ast.value, ast.Call) \
+                and _normalising_call(prog, wl, node.ast.value):
+            n_norm += 1
+            guards = [g for g in direct_guards(prog, wl, node) if g[0].kind == "test"]
+            ok = bool(guards)
+            for b, lab, _org in guards:
+                leaves = [x for x in ast.walk(b.ast) if isinstance(x, ast.Name) and x.id == "replace_whitespace"]
+                if "width" in {x.id for x in ast.walk(b.ast) if isinstance(x, ast.Name)}:
+                    continue  # the width <= 0 split of the function
+                ok = ok and lab == "T" and bool(leaves) and implied_by(b.ast, leaves[:1])
+            ctx.ob("R-LAYOUT-Y2", f"{wl.qual} :: whitespace collapse controlled by replace_whitespace alone", ok,
+                   "whenever replace_whitespace is true the runs of whitespace must be collapsed; guards: "
+                   + "; ".join(f"{norm(g[0].ast)}[{g[1]}]" for g in guards), where(wl, node))
+    ctx.require("R-LAYOUT-Y2", "whitespace-collapsing statements in wrap_paragraph_lines", n_norm, 1)
     # wrap_paragraph_lines' normalisation is on by default and not switched off on the Markdown chains
     d = next((dflt for a, dflt in zip(reversed(wl.node.args.args), reversed(wl.node.args.defaults)) if a.arg == "replace_whitespace"), None)
     ctx.ob("R-LAYOUT-Y2", f"{wl.qual} :: replace_whitespace defaults to True", isinstance(d, ast.Constant) and d.value is True,
@@ -104,6 +125,18 @@ def check_whitespace_normalised(ctx: Ctx) -> None:
                 ctx.ob("R-LAYOUT-Y2", f"{f.qual} :: does not disable whitespace collapsing",
                        rw is None or (isinstance(rw, ast.Constant) and rw.value is True),
                        "the Markdown wrappers must not pass replace_whitespace=False", where(f, c))
+
+
+def check_soft_break_is_layout(ctx: Ctx) -> None:
+    """Y6: a soft line break is layout - rendering it must leave no trace in the renderer's state."""
+    rm = get_model(ctx)
+    m = rm.methods.get("LineBreak")
+    if m is None:
+        raise AnalysisError("render method for LineBreak not found")
+    touched = sorted(ctx.prog.may_assign(m))
+    ctx.ob("R-LAYOUT-Y6", f"{m.qual} :: rendering a line break does not touch renderer state", not touched,
+           "where the source lines were broken must not influence anything but the newline itself; the method assigns "
+           f"{touched or 'nothing'}, so later decisions (escaping, spacing) would depend on the input's line layout", where(m, m.node))
 
 
 def check_segment_predicates(ctx: Ctx) -> None:
